@@ -67,6 +67,11 @@ func newFileLog(c *core.Case, cfg walCfg) (*fileLog, error) {
 	return fl, nil
 }
 
+// ctx is the part of a witness that tells how the files were produced.
+func (fl *fileLog) ctx() map[string]interface{} {
+	return map[string]interface{}{"wal": fl.cfg, "trace": append([]string{}, fl.trace...)}
+}
+
 func (fl *fileLog) cleanup() {
 	ktime.VerifSetNow(nil)
 	os.RemoveAll(fl.dir)
